@@ -18,7 +18,9 @@ THEOREMS = [P + n for n in ("pick_perm", "pick_sorted", "pick_sublist", "sect_pu
            ["Rspirv.Props.Reload." + n for n in ("load_canon", "step_cinv", "canon_of_load", "load_header", "C01_reload")] + \
            ["Rspirv.Props.RoundTrip." + n for n in ("insts_asm", "assemble_load", "parse_header_form", "C01_reload_bytes",
                                                     "grammarStreamB_sound")] + ["Rspirv.Props.C01End.C01_reload_scope"] + \
-           ["Rspirv.Props.C01Layout." + n for n in ("asm_len", "insts_stream", "C01_reload_layout")]
+           ["Rspirv.Props.C01Layout." + n for n in ("asm_len", "insts_stream", "C01_reload_layout")] + \
+           ["Rspirv.Props.C01Full." + n for n in ("insts_chunks", "reencode", "Chunks.length", "Chunks.reencode", "C01_full")] + \
+           ["Rspirv.Props.C01End.C01_full_inst"]
 NEEDS = ("header", "core", "glsl", "opencl", "traversals", "decode", "operand_enum", "asm_arms", "parse_operand", "operands",
          "operand_reflect", "disas_operand")
 SECTION = {"cap": 0, "ext": 1, "imp": 2, "mm": 3, "ep": 4, "em": 5, "dbg1": 6, "dbg2": 7, "dbg3": 8, "ann": 9, "tgv": 10}
@@ -138,7 +140,7 @@ def run(ctx):
         hok, herr = C.build_harness(ctx, bins=("impl",))
         have = C.need(ctx, *NEEDS)
         failing = C.prove(ctx, MODULE, THEOREMS, extra_targets=["driver"],
-                          files=["Rspirv/Props/C01.lean", "Rspirv/Props/C01Words.lean", "Rspirv/Props/Reload.lean", "Rspirv/Props/RoundTrip.lean", "Rspirv/Props/C01Layout.lean", "Rspirv/Props/C01End.lean", "Rspirv/Props/C02.lean", "Rspirv/Model/Loader.lean", "Rspirv/Model/LoadBytes.lean",
+                          files=["Rspirv/Props/C01.lean", "Rspirv/Props/C01Words.lean", "Rspirv/Props/Reload.lean", "Rspirv/Props/RoundTrip.lean", "Rspirv/Props/C01Layout.lean", "Rspirv/Props/C01Full.lean", "Rspirv/Props/C01End.lean", "Rspirv/Props/C02.lean", "Rspirv/Model/Loader.lean", "Rspirv/Model/LoadBytes.lean",
                                  "Rspirv/Model/Assemble.lean", "Rspirv/Model/Module.lean"]) if have else []
     for n, e in failing:
         ctx.issue(f"theorem:{n}", f"Lean obligation no longer checks: {e['msg'][:300]}", witness=e)
